@@ -69,6 +69,18 @@ func (ev *Eval) evalBool(e Expr) (res string) {
 	return v.Term
 }
 
+// evalAssume evaluates an expression that will be assumed: on an evaluation
+// error it yields "true" (assuming nothing) and records a bind error, so the
+// function's #bind obligation fails instead of the assumption becoming false.
+func (ev *Eval) evalAssume(e Expr) string {
+	n := len(ev.fe.top.bindErrs)
+	t := ev.evalBool(e)
+	if len(ev.fe.top.bindErrs) > n {
+		return "true"
+	}
+	return t
+}
+
 func (ev *Eval) evalTerm(e Expr) (res string) {
 	defer func() {
 		if r := recover(); r != nil {
@@ -624,7 +636,18 @@ func (ev *Eval) binary(x *EBin) Val {
 		if r.K != nil {
 			return Val{Term: "(div " + lt + " " + pow2s(int(r.K.Int64())) + ")"}
 		}
+	case "^", "|":
+		if w, signed, ok := intInfo(typ); ok && !signed && w <= 8 {
+			tk := token.XOR
+			if x.Op == "|" {
+				tk = token.OR
+			}
+			return Val{Term: ev.fe.bitop(tk, lt, rt, w, false), T: typ}
+		}
 	case "&":
+		if w, signed, ok := intInfo(typ); ok && !signed && w <= 8 && r.K == nil {
+			return Val{Term: ev.fe.bitop(token.AND, lt, rt, w, false), T: typ}
+		}
 		if r.K != nil {
 			if k, ok := isPow2(new(big.Int).Add(r.K, big.NewInt(1))); ok {
 				return Val{Term: "(mod " + lt + " " + pow2s(k) + ")"}
@@ -758,6 +781,14 @@ func (ev *Eval) callExpr(x *ECall) Val {
 		ea := ev.indexVal(a, Val{Term: "q_eq"})
 		eb := ev.indexVal(b, Val{Term: "q_eq"})
 		return Val{Term: "(and (= " + la + " " + lb + ") (forall ((q_eq Int)) (=> (and (<= 0 q_eq) (< q_eq " + la + ")) (= " + ev.term(ea) + " " + ev.term(eb) + "))))", T: boolT}
+	case "pow2":
+		// 2^k for 0 <= k < 64, saturating at 2^64 above (closed form, no axioms)
+		k := ev.intTerm(ev.eval(x.Args[0]), Val{})
+		res := pow2s(64)
+		for i := 63; i >= 0; i-- {
+			res = fmt.Sprintf("(ite (= %s %d) %s %s)", k, i, pow2s(i), res)
+		}
+		return Val{Term: res}
 	case "ispow2":
 		v := ev.eval(x.Args[0])
 		w, _, ok := intInfo(v.T)
@@ -839,6 +870,9 @@ func (g *Gen) specSort(s *Sess, name, pkgPath string, cur *types.Package) (strin
 	case "bool":
 		return "Bool", types.Typ[types.Bool]
 	}
+	if al, ok := g.db.SortAlias[name]; ok {
+		return g.specSort(s, al[0], al[1], cur)
+	}
 	var pk *types.Package
 	if pkgPath != "" {
 		pk = g.typesPkg(pkgPath)
@@ -847,9 +881,8 @@ func (g *Gen) specSort(s *Sess, name, pkgPath string, cur *types.Package) (strin
 		pk = cur
 	}
 	if pk != nil {
-		tv, err := types.Eval(g.fset, pk, token.NoPos, name)
-		if err == nil && tv.IsType() {
-			return s.sortOf(tv.Type), tv.Type
+		if t := g.parseTypeExpr(name, pk); t != nil {
+			return s.sortOf(t), t
 		}
 	}
 	// search all loaded packages for a unique type name
@@ -979,6 +1012,21 @@ func (fe *FnEnc) loopResolver(h *ssa.BasicBlock, over map[*ssa.Phi]Val, ev *Eval
 				return fe.vals[p], true
 			}
 		}
+		{
+			// a local living in an Alloc (named result, address-taken variable)
+			for _, b := range fe.fn.Blocks {
+				if b != h && !b.Dominates(h) {
+					continue
+				}
+				for _, ins := range b.Instrs {
+					if al, ok := ins.(*ssa.Alloc); ok && al.Comment == name {
+						if v, ok := fe.vals[al]; ok && v.Addr != nil {
+							return ev.readAddr(v.Addr, v.Addr.elemType()), true
+						}
+					}
+				}
+			}
+		}
 		// last dominating DebugRef
 		var best *ssa.DebugRef
 		bestDepth := -1
@@ -1037,8 +1085,95 @@ func (fe *FnEnc) evalAtLoop(h *ssa.BasicBlock, cl Clause, over map[*ssa.Phi]Val)
 	return ev.evalBool(cl.E)
 }
 
+func (fe *FnEnc) evalAtLoopAssume(h *ssa.BasicBlock, cl Clause) string {
+	ev := fe.newEval(fe.mem, fe.top.entryMem, fe.loopEnv())
+	ev.resolve = fe.loopResolver(h, nil, ev)
+	return ev.evalAssume(cl.E)
+}
+
 func (fe *FnEnc) evalAtLoopTerm(h *ssa.BasicBlock, cl Clause, over map[*ssa.Phi]Val) string {
 	ev := fe.newEval(fe.mem, fe.top.entryMem, fe.loopEnv())
 	ev.resolve = fe.loopResolver(h, over, ev)
 	return ev.evalTerm(cl.E)
+}
+
+// parseTypeExpr resolves a small Go type expression ([]T, [N]T, *T, map[K]V,
+// pkg.T, T) against package pk and its imports.
+func (g *Gen) parseTypeExpr(x string, pk *types.Package) types.Type {
+	x = strings.TrimSpace(x)
+	switch {
+	case strings.HasPrefix(x, "[]"):
+		if e := g.parseTypeExpr(x[2:], pk); e != nil {
+			return types.NewSlice(e)
+		}
+		return nil
+	case strings.HasPrefix(x, "*"):
+		if e := g.parseTypeExpr(x[1:], pk); e != nil {
+			return types.NewPointer(e)
+		}
+		return nil
+	case strings.HasPrefix(x, "["):
+		i := strings.Index(x, "]")
+		if i < 0 {
+			return nil
+		}
+		var n int64
+		if _, err := fmt.Sscanf(x[1:i], "%d", &n); err != nil {
+			return nil
+		}
+		if e := g.parseTypeExpr(x[i+1:], pk); e != nil {
+			return types.NewArray(e, n)
+		}
+		return nil
+	case strings.HasPrefix(x, "map["):
+		depth := 0
+		for i := 3; i < len(x); i++ {
+			if x[i] == '[' {
+				depth++
+			} else if x[i] == ']' {
+				depth--
+				if depth == 0 {
+					k := g.parseTypeExpr(x[4:i], pk)
+					v := g.parseTypeExpr(x[i+1:], pk)
+					if k != nil && v != nil {
+						return types.NewMap(k, v)
+					}
+					return nil
+				}
+			}
+		}
+		return nil
+	}
+	if i := strings.Index(x, "."); i >= 0 {
+		for _, imp := range pk.Imports() {
+			if imp.Name() == x[:i] {
+				if o, ok := imp.Scope().Lookup(x[i+1:]).(*types.TypeName); ok {
+					return o.Type()
+				}
+			}
+		}
+		for _, p := range g.pkgs {
+			if p.Types != nil && p.Types.Name() == x[:i] {
+				if o, ok := p.Types.Scope().Lookup(x[i+1:]).(*types.TypeName); ok {
+					return o.Type()
+				}
+			}
+		}
+		return nil
+	}
+	if o := types.Universe.Lookup(x); o != nil {
+		if tn, ok := o.(*types.TypeName); ok {
+			return tn.Type()
+		}
+	}
+	if o, ok := pk.Scope().Lookup(x).(*types.TypeName); ok {
+		return o.Type()
+	}
+	// dot-imports
+	for _, imp := range pk.Imports() {
+		if o, ok := imp.Scope().Lookup(x).(*types.TypeName); ok && o.Exported() {
+			return o.Type()
+		}
+	}
+	return nil
 }
